@@ -13,6 +13,7 @@
  *   anonat <hexaddr> <pages> <perms>                       anonymous mapping at a fixed address
  *   filexat <hexaddr> <hexpath> <offset> <pages> <perms>   file mapping at a fixed address
  *   appmem <anon-index> <offset> <len>                     application memory region (reported on stdout)
+ *   appmemsh <offset> <len>                                application memory region inside the shared page
  *   fd <kind>                                              file|dir|pipe|socket|eventfd
  *   chain <n> <cyclic 0|1>                                 synthetic PHDR/DYNAMIC/r_debug/link_map chain
  * After setup it prints one line "READY pid=<pid> shared=<memfd path> ..." and key=value facts, then obeys
@@ -184,6 +185,9 @@ int main(int argc, char **argv) {
       close(fd); fl += snprintf(facts + fl, sizeof facts - fl, " file=%lx", (unsigned long)m);
     } else if (sscanf(line, "appmem %u %u %u", &u1, &u2, &u3) == 3) {
       fl += snprintf(facts + fl, sizeof facts - fl, " app=%lx:%u", (unsigned long)(A[u1].p + u2), u3);
+    } else if (sscanf(line, "appmemsh %u %u", &u1, &u2) == 2) {
+      /* an application memory region inside the shared page (the spin counters live there) */
+      fl += snprintf(facts + fl, sizeof facts - fl, " app=%lx:%u", (unsigned long)((uintptr_t)SH + u1), u2);
     } else if (sscanf(line, "fill %u %u", &u1, &u2) == 2) {
       /* every byte of (writable) anonymous mapping u1 set to u2 */
       if (u1 < (unsigned)NA) memset(A[u1].p, (int)u2, (size_t)A[u1].pages * 4096);
@@ -247,7 +251,7 @@ int main(int argc, char **argv) {
      harness has opened the shared page (a zombie leader's /proc/<pid>/fd is gone) */
   if (main_exits) { if (!fgets(cmd, sizeof cmd, stdin)) return 0; pthread_exit(0); }
   while (fgets(cmd, sizeof cmd, stdin)) {
-    unsigned i; if (cmd[0] == 'q') break;
+    unsigned i, mp_off, mp_pages; char mp_perms[8]; if (cmd[0] == 'q') break;
     if (cmd[0] == 'e' && cmd[1] == ' ') {
       /* the target becomes a new program image under the same pid (new auxiliary vector, new layout) */
       char path[512]; if (sscanf(cmd + 2, "%511s", path) == 1) { execl("/proc/self/exe", "tgt", path, (char *)0); }
@@ -266,6 +270,9 @@ int main(int argc, char **argv) {
       usleep(20000);
       for (int k = first; k < NT; k++) printf(" %d:%lx", T[k].tid, (unsigned long)T[k].sp);
       printf("\n"); fflush(stdout);
+    } else if (sscanf(cmd, "m %u %u %u %7s", &i, &mp_off, &mp_pages, mp_perms) == 4 && i < (unsigned)NA) {
+      /* change the protection of some pages of anonymous mapping i (its line in /proc/<pid>/maps is split) */
+      int rc = mprotect(A[i].p + (size_t)mp_off * 4096, (size_t)mp_pages * 4096, perms_of(mp_perms)); printf("MPROTECT %d\n", rc); fflush(stdout);
     } else if (sscanf(cmd, "x %u", &i) == 1 && i < (unsigned)NT) { T[i].go_exit = 1; pthread_join(T[i].th, 0); printf("EXITED %u\n", i); fflush(stdout); }
   }
   return 0;
